@@ -65,6 +65,19 @@ def models(cp):
     }
 
 
+def edge_conds(b, pv, block):
+    from .intervals import mandatory_edges
+    out = []
+    for s_, l, taken in mandatory_edges(b, block):
+        for term in pv.of_local(l):
+            out.append((term, taken))
+    return out
+
+
+def term_mentions_text(t):
+    return 'get_text' in F.term_str(t)
+
+
 def backslash_entry(b):
     """(true target of `c == '\\\\'`, local c, loop-header blocks)"""
     for bi in sorted(b.live_blocks()):
@@ -327,4 +340,62 @@ def run(fx, rep):
     be = backslash_entry(rb)
     rep.check(be is None, 'R1', 'raw/backslash-processing', rb.loc(), 'raw strings never test for a backslash',
               'parse_raw_string has a backslash branch: `r"a\\""` loses the backslash although raw literals perform no escape processing')
+    # ---------------- R3 delimiter shapes of bytes literals
+    rep.rule('R3', 'bytes literals: every delimiter shape the lexer admits (raw prefix, single or triple quotes) is stripped by the visitor; raw bytes are not escape-processed')
+    from .grammar import Grammar
+    g = Grammar(fx, 'lexer')
+    shapes = set()
+    for p in g.paths('STRING', limit=1, codepoints=True):
+        raw = bool(p) and p[0] == ('rule', 'RAW', 0)
+        q = [x for x in p if x[0] == 'tok']
+        okq = all(len(x[1]) == 1 and next(iter(x[1])) in ('"', "'") for x in q) and len(q) in (2, 6)
+        if not okq:
+            raise F.Lost('unexpected STRING token shape %s' % (p,))
+        shapes.add((raw, len(q) // 2))
+    bp = g.paths('BYTES', limit=1, codepoints=True)
+    if bp != {(('tok', frozenset(['b', 'B'])), ('rule', 'STRING', 0))}:
+        raise F.Lost('unexpected BYTES token shape %s' % sorted(bp))
+    need = sorted((1 + (1 if raw else 0) + ql, ql, raw) for raw, ql in shapes)      # (prefix length, suffix length, raw)
+    vb = [x for x in fx.bodies.values() if x.crate == 'cel_parser' and x.path.endswith('::visit_Bytes') and 'parser.rs' in x.loc()]
+    if len(vb) != 1:
+        raise F.Lost('visit_Bytes not found')
+    vb = vb[0]
+    rep.analysed(vb)
+    vpv = F.Prov(vb)
+    const_slices = []
+    for bi, t in vb.calls():
+        if F.norm_callee(t) == 'std::ops::Index::index' and ('String' in t['arg_tys'][0] or 'str' in t['arg_tys'][0]):
+            alts = set()
+            for x in vpv.of_operand(t['args'][1]):
+                if x[0] == 'agg' and x[1].endswith('Range::Range') and len(x[2]) == 2:
+                    lo, hi = x[2]
+                    if lo[0] == 'const' and isinstance(lo[1], int) and hi[0] == 'f' and hi[1][0] == 'binop' and hi[1][1].startswith('Sub') and hi[1][3][0] == 'const' and 'len' in F.term_str(hi[1][2]):
+                        alts.add((lo[1], hi[1][3][1]))
+                    else:
+                        alts.add(None)
+                else:
+                    alts.add(None)
+            # one single constant (lo, hi) pair, whatever the text looks like
+            if len(alts) == 1 and None not in alts:
+                a_, b_ = next(iter(alts))
+                const_slices.append((a_, b_, bi))
+    # a constant-offset slice that is not control dependent on any test of the text handles exactly one shape
+    unconditional = [c for c in const_slices if not any(term_mentions_text(tm) for tm, _ in edge_conds(vb, vpv, c[2]))]
+    if unconditional:
+        handled = {(a, b_) for a, b_, _ in unconditional}
+        missing = [n for n in need if (n[0], n[1]) not in handled or n[2]]
+        rep.check(not missing, 'R3', 'bytes/delimiter-shapes', vb.loc(), 'constant slice covers every admitted shape',
+                  'visit_Bytes strips the delimiters with the constant slice %s, but the lexer admits the shapes (prefix, suffix, raw) %s: e.g. b\'\'\'abc\'\'\' keeps two quotes on each side and br\'a\\nb\' is escape-processed' % (sorted(handled), missing))
+    else:
+        rep.ok('R3', 'bytes/delimiter-shapes', vb.loc(), 'delimiters are stripped depending on the text (no unconditional constant-offset slice); lexer shapes: %s' % need)
+    if any(n[2] for n in need):
+        tests_raw = False
+        for bb in [vb] + [fx.bodies[c] for c in fx.children.get(vb.path, [])]:
+            bpv = F.Prov(bb)
+            for bi, t in bb.calls():
+                for a in t['args']:
+                    for x in bpv.of_operand(a):
+                        if F.term_contains(x, lambda y: y[0] == 'const' and y[1] in ('r', 'R', 'br', 'bR', 'Br', 'BR')) or (x[0] == 'agg' and any(e == ('const', 'r') for e in x[2])):
+                            tests_raw = True
+        rep.check(tests_raw, 'R3', 'bytes/raw-prefix-recognised', vb.loc(), 'the raw prefix r|R is recognised', 'the lexer admits raw bytes literals (b r\'..\') but visit_Bytes never looks for the r|R prefix: raw bytes are escape-processed and keep a quote')
     rep.floor('R1', 190)
